@@ -901,7 +901,10 @@ pub fn property_c02() -> Property {
     Property {
         id: "C02",
         level: "exploration",
-        parts: vec![Box::new(PropPart(C02Plan))],
+        parts: vec![
+            Box::new(PropPart(C02Plan)),
+            Box::new(PropPart(crate::props::c04::C02Writes)),
+        ],
     }
 }
 pub fn property_c03() -> Property {
